@@ -1,5 +1,5 @@
 (* C03 — Layout and accelerator independence.
-   Statements only; proofs are in SigP.PruneProofs / SigP.LayoutProofs.
+   Statements only; proofs are in SigP.PruneProofs / SigP.LayoutProofs / SigP.FetchProofs / SigP.TextPlanProofs.
 
    Full statement asked by the property (kept visible; REFUTED on the faithful model, see below):
      range_prune_sound_full :
@@ -421,3 +421,70 @@ Theorem C03_fetch_eof_needs_unsent_check_refuted :
   fetch_answer_noflush 2 late_layout = ([6; 5; 4; 3; 2; 1], true, [0]).
 Proof. exact noflush_loses_held_back_record. Qed.
 Print Assumptions C03_fetch_eof_needs_unsent_check_refuted.
+
+(* ----- the bloom check as a planner: candidate columns of an equality on the wildcard column (TextPlan.v) -----
+   Besides keeping or dropping the block, the bloom check of a query on column `*` records the columns of the block
+   whose filter holds the value; an equality `* = "value"` (ES term / query_string on `*`: SimpleExpressionAllColumns)
+   is searched in those columns only.  The accelerator may only skip work: *)
+From SigM Require Import TextPlan.
+From SigP Require Import TextPlanProofs.
+
+(* for ANY filter structure without false negatives, any split of the records into segments (open or rotated) and
+   blocks, any mixture of string and numeric columns: the answer is exactly (same list) the records in which some
+   column holds the value; no premise on the records *)
+Theorem C03_allcol_equality_answer_is_spec :
+  forall (B : Type) (bempty : B) (badd : B -> bytes -> B) (btest : B -> bytes -> bool),
+  (forall b w, btest (badd b w) w = true) ->
+  (forall b w x, btest b x = true -> btest (badd b w) x = true) ->
+  forall ci (k : bytes * option bytes) (L : list tseg),
+    (ci = true -> lower (fst k) = fst k) ->
+    allcol_answer (mkf B bempty badd btest) ci k L = allcol_spec ci (fst k) (layout_recs L).
+Proof. exact allcol_answer_is_spec. Qed.
+Print Assumptions C03_allcol_equality_answer_is_spec.
+
+(* hence two layouts of the same records (other flush / rotation history, open vs rotated) agree *)
+Theorem C03_allcol_equality_layout_invariance :
+  forall (B : Type) (bempty : B) (badd : B -> bytes -> B) (btest : B -> bytes -> bool),
+  (forall b w, btest (badd b w) w = true) ->
+  (forall b w x, btest b x = true -> btest (badd b w) x = true) ->
+  forall ci (k : bytes * option bytes) (L1 L2 : list tseg),
+    (ci = true -> lower (fst k) = fst k) ->
+    Permutation (layout_recs L1) (layout_recs L2) ->
+    Permutation (allcol_answer (mkf B bempty badd btest) ci k L1) (allcol_answer (mkf B bempty badd btest) ci k L2).
+Proof. exact allcol_layout_invariance. Qed.
+Print Assumptions C03_allcol_equality_layout_invariance.
+
+(* what makes it true: the block is kept and the column of EVERY cell equal to the value is among the recorded
+   columns, by doBloomCheckAllCol (rotated) and by doBloomCheckForCols over the segment's columns (open) *)
+Theorem C03_allcol_candidates_complete :
+  forall (B : Type) (bempty : B) (badd : B -> bytes -> B) (btest : B -> bytes -> bool),
+  (forall b w, btest (badd b w) w = true) ->
+  (forall b w x, btest b x = true -> btest (badd b w) x = true) ->
+  forall ci (k : bytes * option bytes) (bs : list tblock) (b : tblock) (r : srec) c v,
+    (ci = true -> lower (fst k) = fst k) ->
+    In b bs -> In r (tb_recs b) -> In (c, v) (snd r) -> eq_ci ci (fst k) v = true ->
+    (exists cs, allcol_rotated (blk_cmis (mkf B bempty badd btest) b) [k] LAnd = Some cs /\ In c cs)
+    /\ (exists cs, allcol_unrotated (seg_cols bs) (blk_cmis (mkf B bempty badd btest) b) [k] LAnd = Some cs /\ In c cs).
+Proof. exact allcol_candidates_complete. Qed.
+Print Assumptions C03_allcol_candidates_complete.
+
+(* whatever list is recorded (false positives of the filter included), the restricted search never invents a record *)
+Theorem C03_allcol_plan_only_skips : forall ci key plan b x,
+  In x (search_block ci key plan b) -> In x (allcol_spec ci key (tb_recs b)).
+Proof. exact search_block_only_skips. Qed.
+Print Assumptions C03_allcol_plan_only_skips.
+
+(* the early exit "the block can hold the value, no need to test the remaining filters" (the loop the sibling
+   doBloomCheckForCol has for a named column) is NOT an optimisation here: block {src:alpha,dst:x},{src:y,dst:alpha},
+   `* = alpha`: with the early exit the rotated block is searched in one column and loses a record, the same block
+   while the segment is open returns both; the code (every positive column) returns both *)
+Theorem C03_allcol_first_positive_column_refuted :
+  let k := (w_alpha, @None bytes) in
+  allcol_spec false w_alpha (tb_recs wit_block) = [0%nat; 1%nat]
+  /\ allcol_answer_first exact_filter false k [(false, [wit_block])] = [0%nat]
+  /\ allcol_answer_first exact_filter false k [(true, [wit_block])] = [0%nat; 1%nat]
+  /\ allcol_answer exact_filter false k [(false, [wit_block])] = [0%nat; 1%nat]
+  /\ allcol_rotated (blk_cmis exact_filter wit_block) [k] LAnd = Some [c_src; c_dst; c_src; c_dst]
+  /\ allcol_rotated_first (blk_cmis exact_filter wit_block) [k] LAnd = Some [c_src].
+Proof. exact allcol_first_positive_refuted. Qed.
+Print Assumptions C03_allcol_first_positive_column_refuted.
